@@ -97,12 +97,13 @@ class Mirror13(coremodel.Mirror):
 
 
 class Rec:
-    __slots__ = ("group", "ri", "tdesc", "pytype", "value", "inputs")
+    __slots__ = ("group", "ri", "tdesc", "pytype", "value", "inputs", "results")
 
     def __init__(self, group, ri, value):
         self.group, self.ri, self.value = group, ri, value
         self.tdesc, self.pytype = group.roots[ri], group.pytys[ri]
         self.inputs = []
+        self.results = []
 
 
 def make_group(rng, gi, sup, depth):
@@ -164,6 +165,7 @@ def generate(run, n_groups, seed_offset, values_per_root=3, depth=2, model=True)
                         obs = g.add("u", ri, x)
                         if obs[0] == "ok" and tag != "valid":
                             g.add("u", ri, obs[1])          # the second application, on the model as well
+                            rec.results.append(obs[1])
                 records.append(rec)
         groups.append(g)
     return groups, records
@@ -186,7 +188,8 @@ def emit_valid_tie(g, recs, name):
     loose = G.Validity(g.env, g.mod, strict_tuple=False, total=False, on_leaf=on_leaf)
     vcases, descs = [], []
     for rec in recs:
-        for tag, x in [("valid", rec.value)] + [(t, x) for t, x in rec.inputs if t != "valid"][:4]:
+        for tag, x in [("valid", rec.value)] + [(t, x) for t, x in rec.inputs if t != "valid"][:4] + \
+                [("result", y) for y in rec.results[:4]]:
             try:
                 ev, es = strict(rec.tdesc, x), loose(rec.tdesc, x)
                 enc = reg.enc(x)
@@ -333,7 +336,8 @@ def sample_laws(run, groups, records):
                 fail("none_rejects", "type(None)", src, modname, v, repr(r[1:])[:300])
 
     # (leaf, valid value) pairs of the fixed pools
-    for key, (t_expr, t) in LEAVES.items():
+    for key in G.LEAF_VALUES:
+        t_expr, t = LEAVES[key]
         for v in G.LEAF_VALUES[key] + G.NAN_LEAF_VALUES.get(key, []):
             check_pass(t, t_expr, "", "", v)
             check_none(v)
@@ -402,7 +406,7 @@ def prove(run: lib.Run):
 
 
 def correspond(run: lib.Run):
-    n_groups = run.budget(14, 90)
+    n_groups = run.budget(40, 300)
     groups, records = generate(run, n_groups, seed_offset=13)
     _state["groups"], _state["records"] = groups, records
     evaluate(run, groups, records, "c13")
@@ -490,7 +494,7 @@ def search(run: lib.Run, broken):
     for rec in _state.get("records", []):
         check_record(rec, stats, fails)
     # oracle-only volume (no Coq): more when something is broken
-    n_extra = run.budget(25, 220) * (3 if broken else 1)
+    n_extra = run.budget(80, 700) * (3 if broken else 1)
     groups, records = generate(run, n_extra, seed_offset=1313, model=False, values_per_root=4)
     for rec in records:
         check_record(rec, stats, fails)
